@@ -70,7 +70,8 @@ for v in ("2.0", "2.1"):
         "is_self_signed", "hashes", "version", "serial_number", "signature_algorithm", "issuer", "validity_not_before",
         "validity_not_after", "subject", "subject_public_key_algorithm", "subject_public_key_modulus",
         "subject_public_key_exponent", "x509_v3_extensions"]})
-    _c(v, "SocketExt", {"k": "special", "name": "socket-options"})
+    if v == "2.1":   # 2.0 words the option-name / integer-value rule as SHOULD: off there (AUDIT.md)
+        _c(v, "SocketExt", {"k": "special", "name": "socket-options"})
     _c(v, "MarkingDefinition", {"k": "special", "name": "marking-definition"})
     for ext in ("ArchiveExt", "HTTPRequestExt", "ICMPExt", "NTFSExt", "PDFExt", "RasterImageExt", "SocketExt", "TCPExt",
                 "UNIXAccountExt", "WindowsPEBinaryExt", "WindowsProcessExt", "WindowsServiceExt"):
